@@ -47,7 +47,9 @@ def signal_transform(func):
             raise TypeError("Signal type must be a subclass of pulsarbat.Signal!")
 
         if isinstance(x.data, da.Array):
-            z = da.map_blocks(func, x.data, **dask_kwargs, **kwargs)
+            # The function's own keywords are bound here, so that map_blocks
+            # cannot take one of them (dtype, chunks, name, meta, ...) for its own.
+            z = da.map_blocks(functools.partial(func, **kwargs), x.data, **dask_kwargs)
         else:
             z = func(x.data, **kwargs)
 
